@@ -1,4 +1,5 @@
 """symx.harness -- obligation bookkeeping, parallel job runner, replay, known findings, evidence."""
+import re
 import json, os, sys, time, subprocess, traceback, multiprocessing, hashlib
 import z3
 from . import core, loader
@@ -85,6 +86,13 @@ class Job:
         res, st = explore(fn, max_paths=max_paths)
         for k in ("paths", "infeasible", "truncated", "unsupported", "queries", "solver_s"):
             self.stats[k] += st[k]
+        if st.get("capped") or st.get("leftover"):
+            # paths cut by the engine's own caps (not by a bound the job states): never silently dropped
+            why = "%s: exploration completed within the engine caps (%d paths hit the depth cap, %d prefixes left over at max_paths)" % (
+                label or self.name, st.get("capped", 0), st.get("leftover", 0))
+            self.obligations.append(dict(name=why, verdict="unknown", secs=0.0))
+            if fallback is not None:
+                self.candidates.append(dict(oracle=fallback[0], args=enc(fallback[1]), why=why))
         for r in res:
             if r.kind == "unsupported":
                 self.notes.append("unsupported construct on a path of %s: %s" % (label or self.name, r.value))
@@ -324,9 +332,14 @@ def main(check_module, argv=None):
         print("%s %s: cannot import /repo/src/spake2 (%s: %s) -> inconclusive" % (pid, tier, type(e).__name__, e))
         return 2
     specs = []
+    only = os.environ.get("VERIF_ONLY")          # debugging aid: run the jobs whose name matches; never used by MANIFEST commands
     for (fname, kwargs) in mod.jobs(tier):
         kw = dict(kwargs)
+        if only and not re.search(only, kw.get("_name", fname)):
+            continue
         specs.append((mod.__name__, fname, kw, tier))
+    if only:
+        os.environ.setdefault("VERIF_EVIDENCE_DIR", "/tmp/verif_only_evidence")
     nproc = int(os.environ.get("VERIF_JOBS", "0") or 0) or min(16, max(1, len(specs)))
     results = _schedule(specs, nproc, JOB_DEADLINE[tier])
     results.sort(key=lambda r: r["job"])
